@@ -24,6 +24,7 @@ ap.add_argument("--only", default=None)
 ap.add_argument("--par", type=int, default=3)
 ap.add_argument("--jobs", type=int, default=5)
 ap.add_argument("--tier", default="quick")
+ap.add_argument("--as", dest="as_prop", default=None, help="run the check of ANOTHER property against the seeds (cross-catch record)")
 ap.add_argument("--keep", action="store_true", help="copy each shrunk failing case to replays/<prop>/regress/<sid>__<obligation>.json")
 a = ap.parse_args()
 only = set(a.only.split(",")) if a.only else None
@@ -32,7 +33,7 @@ only = set(a.only.split(",")) if a.only else None
 def one(d):
     sid = os.path.basename(d).split("-")[0]
     meta = json.load(open(os.path.join(d, "meta.json")))
-    prop = meta["property"]
+    prop = a.as_prop or meta["property"]
     tmp = tempfile.mkdtemp(prefix="vfseed_")
     try:
         shutil.copytree("/repo/src", os.path.join(tmp, "src"), ignore=shutil.ignore_patterns("__pycache__", "*.egg-info"))
